@@ -170,11 +170,10 @@ Proof. reflexivity. Qed.
 Section SignFacts.
   Variable sig_sign : N -> bytes -> res bytes.
 
-  Lemma sign_spec clen ulen h body r out :
-    sig0_sign sig_sign clen ulen (hdr_wire h ++ body) r = Ok out ->
+  Lemma sign_spec ulen h body r out :
+    sig0_sign sig_sign ulen (hdr_wire h ++ body) r = Ok out ->
     exists sg,
       key_fields_bad r = false /\ valid_wire (s_signer r) = true /\ has_hash (s_alg r) = true /\
-      ulen + 1 <= clen + lenN (sig_rr_wire r) /\
       sig_sign (s_alg r) (sig_rdata r ++ hdr_wire h ++ body) = Ok sg /\
       lenN out <= 65535 /\
       out = hdr_wire (set_ar h ((h_ar h mod 65536 + 1) mod 65536)) ++ body ++
@@ -182,9 +181,9 @@ Section SignFacts.
   Proof.
     unfold sig0_sign. intros H.
     destruct (key_fields_bad r) eqn:Ek; [discriminate|].
-    destruct (clen + lenN (sig_rr_wire r) <? ulen + 1) eqn:Eb; [discriminate|]. apply N.ltb_ge in Eb.
+    destruct (ulen + 1 + lenN (sig_rr_wire r) <? ulen + 1) eqn:Eb; [discriminate|].
     destruct (valid_wire (s_signer r)) eqn:Ev; [|discriminate]. cbn [negb] in H.
-    destruct (clen + lenN (sig_rr_wire r) <? lenN (hdr_wire h ++ body) + lenN (sig_rr_wire r)); [discriminate|].
+    destruct (ulen + 1 + lenN (sig_rr_wire r) <? lenN (hdr_wire h ++ body) + lenN (sig_rr_wire r)); [discriminate|].
     destruct (has_hash (s_alg r)) eqn:Eh; [|discriminate]. cbn [negb] in H.
     apply bind_ok in H. destruct H as (sg & Hs & H).
     destruct (65535 <? _) eqn:El; [discriminate|]. apply N.ltb_ge in El.
@@ -212,21 +211,21 @@ Section SignFacts.
       rewrite E. rewrite sig_rr_hdr_split. rewrite <- !app_assoc. reflexivity.
   Qed.
 
-  (* The buffer-size test is the only way Sign can fail on a packable message
-     with a usable SIG and a working signer: it does when compression saves at
-     least the size of the SIG record. *)
-  Lemma sign_succeeds clen ulen mbuf r sg :
+  (* The buffer holds the uncompressed message, one more octet and the SIG: the
+     reallocation test of PackBuffer never fires and PackRR has room, for any
+     message whose packed form is not longer than its uncompressed length + 1
+     (compression only shortens).  What remains is the 65535 limit. *)
+  Lemma sign_succeeds ulen mbuf r sg :
     key_fields_bad r = false -> valid_wire (s_signer r) = true -> has_hash (s_alg r) = true ->
-    12 <= lenN mbuf -> lenN mbuf <= clen ->
-    ulen < clen + lenN (sig_rr_wire r) ->
+    12 <= lenN mbuf -> lenN mbuf <= ulen + 1 ->
     sig_sign (s_alg r) (sig_rdata r ++ mbuf) = Ok sg ->
     lenN mbuf + lenN (sig_rr_wire r) + lenN sg <= 65535 ->
-    exists out, sig0_sign sig_sign clen ulen mbuf r = Ok out.
+    exists out, sig0_sign sig_sign ulen mbuf r = Ok out.
   Proof.
-    intros Hk Hv Hh Hl Hc Hu Hs Ht. unfold sig0_sign.
+    intros Hk Hv Hh Hl Hc Hs Ht. unfold sig0_sign.
     rewrite Hk, Hv, Hh. cbn [negb].
-    replace (clen + lenN (sig_rr_wire r) <? ulen + 1) with false by (symmetry; apply N.ltb_ge; lia).
-    replace (clen + lenN (sig_rr_wire r) <? lenN mbuf + lenN (sig_rr_wire r)) with false
+    replace (ulen + 1 + lenN (sig_rr_wire r) <? ulen + 1) with false by (symmetry; apply N.ltb_ge; lia).
+    replace (ulen + 1 + lenN (sig_rr_wire r) <? lenN mbuf + lenN (sig_rr_wire r)) with false
       by (symmetry; apply N.ltb_ge; lia).
     rewrite Hs. cbn [bind].
     replace (65535 <? lenN (mbuf ++ sig_rr_wire r ++ sg)) with false
@@ -243,15 +242,38 @@ Section SignFacts.
   Qed.
 End SignFacts.
 
-(* the defect: a message whose compressed length plus the SIG is not more than
-   its uncompressed length cannot be signed *)
-Lemma sign_errbuf clen ulen mbuf r ss :
-  key_fields_bad r = false -> clen + lenN (sig_rr_wire r) <= ulen ->
-  sig0_sign ss clen ulen mbuf r = Err "buf".
+(* ErrBuf can only mean: the signed message would exceed 65535 octets (or the
+   signer itself reported that class) *)
+Lemma sign_errbuf_cause ss ulen mbuf r :
+  sig0_sign ss ulen mbuf r = Err "buf" ->
+  ss (s_alg r) (sig_rdata r ++ mbuf) = Err "buf" \/
+  exists sg, ss (s_alg r) (sig_rdata r ++ mbuf) = Ok sg /\
+             65535 < lenN mbuf + lenN (sig_rr_wire r) + lenN sg.
 Proof.
-  intros Hk Hc. unfold sig0_sign. rewrite Hk.
-  replace (clen + lenN (sig_rr_wire r) <? ulen + 1) with true by (symmetry; apply N.ltb_lt; lia).
-  reflexivity.
+  unfold sig0_sign. intros H.
+  destruct (key_fields_bad r); [discriminate|].
+  destruct (ulen + 1 + lenN (sig_rr_wire r) <? ulen + 1) eqn:Eb; [apply N.ltb_lt in Eb; lia|].
+  destruct (negb (valid_wire (s_signer r))); [discriminate|].
+  destruct (ulen + 1 + lenN (sig_rr_wire r) <? lenN mbuf + lenN (sig_rr_wire r)); [discriminate|].
+  destruct (negb (has_hash (s_alg r))); [discriminate|].
+  destruct (ss (s_alg r) (sig_rdata r ++ mbuf)) as [sg|c| |] eqn:Es; cbn [bind] in H; try discriminate.
+  - right. exists sg. split; [reflexivity|].
+    destruct (65535 <? lenN (mbuf ++ sig_rr_wire r ++ sg)) eqn:El.
+    + apply N.ltb_lt in El. rewrite !lenN_app in El. lia.
+    + exfalso.
+      assert (Lo : lenN (mbuf ++ sig_rr_wire r ++ sg) = lenN mbuf + lenN (sig_rr_wire r) + lenN sg)
+        by (rewrite !lenN_app; lia).
+      assert (Lr : 11 <= lenN (sig_rr_wire r)) by (unfold sig_rr_wire, sig_rr_hdr; lens; lia).
+      destruct (be_at 2 (mbuf ++ sig_rr_wire r ++ sg) (lenN mbuf + 1 + 2 + 2 + 4)) as [rdlen|c| |] eqn:E1;
+        cbn [bind] in H; try discriminate.
+      * destruct (put_u16 (mbuf ++ sig_rr_wire r ++ sg) (lenN mbuf + 1 + 2 + 2 + 4) ((rdlen + lenN sg) mod 65536))
+          as [o1|c| |] eqn:E2; cbn [bind] in H; try discriminate.
+        -- destruct (be_at 2 o1 10) as [adc|c| |] eqn:E3; cbn [bind] in H; try discriminate.
+           ++ unfold put_u16 in H. destruct (10 + 2 <=? lenN o1); discriminate.
+           ++ unfold be_at in E3. destruct (10 + 2 <=? lenN o1); discriminate.
+        -- unfold put_u16 in E2. destruct (_ <=? _) in E2; discriminate.
+      * unfold be_at in E1. destruct (_ <=? _) in E1; discriminate.
+  - left. congruence.
 Qed.
 
 (* ---------- SIG.Verify's raw skipping agrees with strict framing ---------- *)
@@ -407,13 +429,13 @@ Proof.
   change (get (hdr_wire (Build_hdr id bits qd an ns ar) ++ rest) 8 2) with (u16 ns). apply be_u16.
 Qed.
 
-(* what SIG.Sign hashed, for a message with fewer than 256 additional records *)
-Lemma hdr_split h : h_ar h < 256 ->
-  hdr_wire h = takeN 10 (hdr_wire h) ++ [0; h_ar h mod 256].
+(* the header octets SIG.Sign hashed: octets 0..9 and the original ARCOUNT *)
+Lemma hdr_split h : h_ar h < 65536 ->
+  hdr_wire h = takeN 10 (hdr_wire h) ++ [h_ar h / 256; h_ar h mod 256].
 Proof.
   intros H. destruct h as [id bits qd an ns ar]. cbn [h_ar] in H.
   unfold hdr_wire, u16. cbn [h_id h_bits h_qd h_an h_ns h_ar app takeN N.to_nat Pos.to_nat Pos.iter_op Nat.add firstn].
-  do 10 f_equal. replace ((ar / 256) mod 256) with 0 by lia. reflexivity.
+  do 10 f_equal. replace ((ar / 256) mod 256) with (ar / 256) by lia. reflexivity.
 Qed.
 
 Section RoundTrip.
@@ -421,17 +443,17 @@ Section RoundTrip.
   Variable sc : N -> bytes -> bytes -> res unit.
   Variable chk : N -> bytes -> N -> res N.
 
-  Theorem sign_verify_ok h body r kname clen ulen out now :
-    hdr_ok h -> h_an h + h_ns h + h_ar h + 1 < 65536 -> h_ar h < 256 -> wf_body chk h body ->
+  Theorem sign_verify_ok h body r kname ulen out now :
+    hdr_ok h -> h_an h + h_ns h + h_ar h + 1 < 65536 -> wf_body chk h body ->
     s_expire r < 4294967296 -> s_incept r < 4294967296 -> s_keytag r < 65536 ->
     (forall d s, ss (s_alg r) d = Ok s -> sc (s_alg r) d s = Ok tt) ->
-    sig0_sign ss clen ulen (hdr_wire h ++ body) r = Ok out ->
+    sig0_sign ss ulen (hdr_wire h ++ body) r = Ok out ->
     s_incept r <= now <= s_expire r -> name_equal (s_signer r) kname = true ->
     sig0_verify sc r kname out now = Ok tt.
   Proof.
-    intros Hh Hsum Har Hwf Bx Bi Bk Hsound Hsign Hwin Hname.
+    intros Hh Hsum Hwf Bx Bi Bk Hsound Hsign Hwin Hname.
     apply sign_spec in Hsign.
-    destruct Hsign as (sg & Hk & Hv & Hhash & _ & Hss & Hlen & Eout).
+    destruct Hsign as (sg & Hk & Hv & Hhash & Hss & Hlen & Eout).
     destruct Hh as (H1 & H2 & H3 & H4 & H5 & H6).
     replace ((h_ar h mod 65536 + 1) mod 65536) with (h_ar h + 1) in Eout by lia.
     set (h' := set_ar h (h_ar h + 1)) in *.
@@ -522,9 +544,9 @@ Section RoundTrip.
     rewrite Ssg. cbn [bind].
     apply Hsound. rewrite <- Hss. f_equal. f_equal.
     (* hashed by Verify = hashed by Sign *)
-    replace (((h_ar h + 1 + 65535) mod 65536 * 256) mod 65536 mod 256) with 0 by lia.
+    replace ((h_ar h + 1 + 65535) mod 65536 / 256) with (h_ar h / 256) by lia.
     replace ((h_ar h + 1 + 65535) mod 65536 mod 256) with (h_ar h mod 256) by lia.
-    rewrite (hdr_split h Har) at 1.
+    rewrite (hdr_split h H6) at 1.
     replace (takeN 10 (hdr_wire h')) with (takeN 10 (hdr_wire h)) by (destruct h; reflexivity).
     rewrite <- !app_assoc. reflexivity.
   Qed.
@@ -544,7 +566,7 @@ Section Sound.
       be_at 4 buf (sigstart + 8) = Ok expire /\ be_at 4 buf (sigstart + 8 + 4) = Ok incept /\
       incept <= now <= expire /\
       unpack_name buf (sigstart + 8 + 8 + 2) = Ok (signer, sigend) /\ name_equal signer kname = true /\
-      sc (s_alg r) (rd ++ h10 ++ [0; (adc + 65535) mod 65536 mod 256] ++ body) sg = Ok tt.
+      sc (s_alg r) (rd ++ h10 ++ [(adc + 65535) mod 65536 / 256; (adc + 65535) mod 65536 mod 256] ++ body) sg = Ok tt.
   Proof.
     unfold sig0_verify. intros H.
     destruct (key_fields_bad r) eqn:Ek; [discriminate|].
@@ -570,8 +592,8 @@ Section Sound.
     apply bind_ok in Hd. destruct Hd as (rd & Hrd & Hd).
     apply bind_ok in Hd. destruct Hd as (h10 & H10 & Hd).
     apply bind_ok in Hd. destruct Hd as (body & Hb & Hd).
-    assert (Ed : data = rd ++ h10 ++ [0; (adc + 65535) mod 65536 mod 256] ++ body).
-    { replace 0 with (((adc + 65535) mod 65536 * 256) mod 65536 mod 256) at 1 by lia. congruence. }
+    assert (Ed : data = rd ++ h10 ++ [(adc + 65535) mod 65536 / 256; (adc + 65535) mod 65536 mod 256] ++ body).
+    { congruence. }
     subst data.
     exists adc, bodyend, (o2 + 10), sigend, rd, h10, body, sg, expire, incept, signer.
     repeat split; try assumption; try lia.
@@ -586,13 +608,13 @@ Section Sound.
     (forall adc bodyend sigstart rd h10 body,
         be_at 2 buf1 10 = Ok adc -> slice buf1 sigstart e1 = Ok rd -> slice buf1 0 10 = Ok h10 ->
         slice buf1 12 bodyend = Ok body ->
-        sc (s_alg r1) (rd ++ h10 ++ [0; (adc + 65535) mod 65536 mod 256] ++ body) sg = Ok tt ->
+        sc (s_alg r1) (rd ++ h10 ++ [(adc + 65535) mod 65536 / 256; (adc + 65535) mod 65536 mod 256] ++ body) sg = Ok tt ->
         forall adc' bodyend' sigstart' rd' h10' body',
           be_at 2 buf2 10 = Ok adc' -> slice buf2 sigstart' e2 = Ok rd' -> slice buf2 0 10 = Ok h10' ->
           slice buf2 12 bodyend' = Ok body' ->
-          sc (s_alg r2) (rd' ++ h10' ++ [0; (adc' + 65535) mod 65536 mod 256] ++ body') sg = Ok tt ->
-          rd ++ h10 ++ [0; (adc + 65535) mod 65536 mod 256] ++ body =
-          rd' ++ h10' ++ [0; (adc' + 65535) mod 65536 mod 256] ++ body').
+          sc (s_alg r2) (rd' ++ h10' ++ [(adc' + 65535) mod 65536 / 256; (adc' + 65535) mod 65536 mod 256] ++ body') sg = Ok tt ->
+          rd ++ h10 ++ [(adc + 65535) mod 65536 / 256; (adc + 65535) mod 65536 mod 256] ++ body =
+          rd' ++ h10' ++ [(adc' + 65535) mod 65536 / 256; (adc' + 65535) mod 65536 mod 256] ++ body').
   Proof.
     intros Hbind _ _ e1 e2 sg _ _ adc bodyend sigstart rd h10 body _ _ _ _ C1
            adc' bodyend' sigstart' rd' h10' body' _ _ _ _ C2.
@@ -647,7 +669,7 @@ Qed.
 (* a message with 2 additional records: signed, verified inside the window,
    rejected outside it, with another key name, and after altering one octet *)
 Example ex_sign_verify :
-  match sig0_sign ex_ss (lenN (ex_msg 2)) (lenN (ex_msg 2)) (ex_msg 2) ex_sig with
+  match sig0_sign ex_ss (lenN (ex_msg 2)) (ex_msg 2) ex_sig with
   | Ok out =>
     sig0_verify ex_sc ex_sig [[75; 69; 89]] out 1500 = Ok tt /\
     sig0_verify ex_sc ex_sig [[107; 101; 121]] out 999 = Err "time" /\
@@ -658,23 +680,17 @@ Example ex_sign_verify :
   end.
 Proof. vm_compute. repeat split; reflexivity. Qed.
 
-(* defect 1: Len() of the compressed form plus the SIG is not above the
-   uncompressed length: ErrBuf although the message packs *)
-Example sign_errbuf_witness :
-  sig0_sign ex_ss (lenN (ex_msg 2) - 34) (lenN (ex_msg 2)) (ex_msg 2) ex_sig = Err "buf" /\
-  sig0_sign ex_ss (lenN (ex_msg 2) - 33) (lenN (ex_msg 2)) (ex_msg 2) ex_sig <> Err "buf".
-Proof. vm_compute. split; [reflexivity|discriminate]. Qed.
-
-(* defect 2: byte((adc-1)<<8) is 0: with 255 additional records the signed
-   message verifies, with 256 the hashed octets differ from the signed ones *)
-Example verify_arcount_witness :
-  match sig0_sign ex_ss 5000 5000 (ex_msg 255) ex_sig, sig0_sign ex_ss 5000 5000 (ex_msg 256) ex_sig with
-  | Ok o255, Ok o256 =>
+(* 255, 256 and 1000 additional records: signed and verified alike *)
+Example ex_many_additionals :
+  match sig0_sign ex_ss 5000 (ex_msg 255) ex_sig, sig0_sign ex_ss 5000 (ex_msg 256) ex_sig,
+        sig0_sign ex_ss 20000 (ex_msg 1000) ex_sig with
+  | Ok o255, Ok o256, Ok o1000 =>
     sig0_verify ex_sc ex_sig [[107; 101; 121]] o255 1500 = Ok tt /\
-    sig0_verify ex_sc ex_sig [[107; 101; 121]] o256 1500 = Err "sig"
-  | _, _ => False
+    sig0_verify ex_sc ex_sig [[107; 101; 121]] o256 1500 = Ok tt /\
+    sig0_verify ex_sc ex_sig [[107; 101; 121]] o1000 1500 = Ok tt
+  | _, _, _ => False
   end.
-Proof. vm_compute. split; reflexivity. Qed.
+Proof. vm_compute. repeat split; reflexivity. Qed.
 
 Example ex_wf_msg : wf_body ex_chk (Build_hdr 4660 256 1 0 0 2)
                             ([7; 101; 120; 97; 109; 112; 108; 101; 0; 0; 1; 0; 1] ++ concat (repeat ex_rr 2)).
